@@ -4,6 +4,7 @@ This service provides comprehensive color validation, lookup, and RTF generation
 capabilities using the full 657-color table from r2rtf.
 """
 
+import threading
 from collections.abc import Mapping, Sequence
 from typing import Any
 
@@ -30,9 +31,17 @@ class ColorService:
         self._name_to_type = name_to_type
         self._name_to_rgb = name_to_rgb
         self._name_to_rtf = name_to_rtf
-        self._current_document_colors = (
-            None  # Context for current document being encoded
-        )
+        # Context for the document being encoded; kept per thread so that
+        # concurrent encodes cannot see each other's palette
+        self._context = threading.local()
+
+    @property
+    def _current_document_colors(self):
+        return getattr(self._context, "colors", None)
+
+    @_current_document_colors.setter
+    def _current_document_colors(self, value):
+        self._context.colors = value
 
     def validate_color(self, color: str) -> bool:
         """Validate if a color name exists in the color table.
